@@ -1270,10 +1270,10 @@ def abl_decode_longer_record(h):
 
 @oset("at4.xFF30.decode-any-length", ["C05", "C17"], [VER + ":ConsoleVersionDecoder.decode"],
       assumptions=["len(data) == sub-header.message_length (what the 0x1F wrapper hands to a sub-decoder)",
-                   "str.split is kept abstract: the obligation is that it is applied to exactly the announced text with ','"])
+                   "str.split is kept abstract: the obligation is that it is applied to exactly the announced text with '|'"])
 def ver_decode_any(h):
     """Unbounded companion of at4.xFF30.decode-vendor-reading: any data length, any text length."""
     if not h.symbolic:
         return
     from contracts.at5_ext import version_decode_any_length
-    version_decode_any_length(h, VER, at4_subheader, SUB_VERSION)
+    version_decode_any_length(h, VER, at4_subheader, SUB_VERSION, sep="|")   # 4.e.iv: versions separated by 0x7c
